@@ -35,7 +35,9 @@ def symbols_of(text):
         linkage = next((w for w in words if w in LINKAGES), "external")
         # visibility style of the symbol (LangRef): `hidden` / `protected` symbols are not visible outside the linked object
         vis = next((w for w in words if w in ("hidden", "protected")), "default")
-        base = re.sub(r"\.\d+$", "", name)
+        # the generator emits a function that is neither pub, main, extern nor forward declared as `.fn.NAME`;
+        # LLVM's linker renames clashing local symbols NAME.N
+        base = re.sub(r"^\.fn\.", "", re.sub(r"\.\d+$", "", name))
         out.append({"name": name, "base": base, "kind": kind, "linkage": linkage, "vis": vis})
     return out
 
